@@ -1,7 +1,9 @@
 import RootSim.Model.LP
+import RootSim.Model.LPFull
 import RootSim.Model.GenModel
 import RootSim.Model.Serial
 import RootSim.Model.Place
+import RootSim.Model.TimeWarp
 import Driver.Util
 /-!
 Driver modes `serial` and `par`: re-execution of a real ROOT-Sim run on the Lean models.
@@ -30,7 +32,7 @@ inductive Exp where
   | send (lp : Nat) (e : Event)            -- next `send` line binds its ordinal to this content
   | initPush (lp : Nat) (m : Nat)          -- silently applied before the `ckpt` of process_lp_init
   | antil (m : Nat)
-  | unproc (m : Nat)
+  | unproc (m : Nat) (cancelled : Bool)   -- `cancelled`: the model knows the ANTI bit of this message is set
   | rb (lp pastI ref : Nat)
   | silent (lp idx m : Nat)
   | rbdone (lp pastI : Nat) (dg : UInt64)
@@ -63,11 +65,28 @@ structure Thread where
   lastAlloc : Nat := 0
   cur : Nat := 0        -- message being processed
   atGvt : Array Nat := #[]   -- `at_gvt_list` of mm/msg_allocator.c
-  /-- result of the PROVEN one-shot function `LP.processPlain` for the message being processed (sent ordinals unknown yet:
-  placeholders), compared with the incrementally built LP state when the `fwd` line arrives -/
-  oneShot : Option (LPState GState) := none
+  /-- forward execution in progress (`LPFull.stepPre` said `cont`): the ordinals carried by the `send` / `rsend` lines are
+  collected here (they are the allocator's choices, an input of `LPFull.stepFwd`), which is run when the `fwd` line arrives -/
+  collect : Bool := false
+  outs : Array Nat := #[]
+
+/-- Shadow state of the abstract global Time Warp machine (`Model/TimeWarp.lean`, theorems `Props/C01Glue.lean`) that the
+re-execution steps alongside the concrete run when the trace asks for it (`twshadow` line; single rank only): every
+`process_msg` of the real run is mapped to ONE abstract action (`exec`, `annihilate`, `antiRollback`), which must be enabled, and
+afterwards the abstract history of the LP must equal the concrete one (committed part ++ current past entries, as contents);
+every GVT value adopted by a thread must be a lower bound of the abstract pending messages and anti-messages — the hypothesis of
+`C01Glue.reachable_hist`. A failure is appended to the `end` line (the implementation prints none, so it shows as a divergence). -/
+structure TwShadow where
+  on : Bool := false
+  st : Option TWState := none
+  /-- per LP: contents of the history entries released by fossil collection so far -/
+  dropped : Array (List Event) := #[]
+  bad : Option String := none
+  steps : Nat := 0
+  gvtChecks : Nat := 0
 
 structure Sys where
+  tw : TwShadow := {}
   P : Params := ⟨0, 1, 1, 1, 0, 0, false, false, false, 0⟩
   pool : Array MsgRec := #[]
   lps : Array (LPState GState) := #[]
@@ -94,7 +113,7 @@ def dummyEv : Event := { dest := 0, t := 0, type := 0, payload := [] }
 def Sys.mrec (s : Sys) (m : Nat) : MsgRec := s.pool.getD m { ev := dummyEv }
 def Sys.ev (s : Sys) (m : Nat) : Event := (s.mrec m).ev
 /-- message as the C comparisons see it: content + current flag word -/
-def Sys.look (s : Sys) (m : Nat) : Msg := { (s.ev m).toMsg with rawFlags := (s.mrec m).flags }
+def Sys.look (s : Sys) (m : Nat) : Msg := { (s.ev m).toMsg with rawFlags := (s.mrec m).flags, mSeq := (s.mrec m).mseq }
 def Sys.setRec (s : Sys) (m : Nat) (r : MsgRec) : Sys :=
   if m < s.pool.size then { s with pool := s.pool.set! m r }
   else { s with pool := (s.pool ++ Array.replicate (m - s.pool.size) ({ ev := dummyEv } : MsgRec)).push r }
@@ -117,26 +136,66 @@ def hnd (s : Sys) (lp : Nat) : GState → Event → GState × List Event := hand
 /-- queue re-insertion bookkeeping -/
 def Sys.requeue (s : Sys) (m : Nat) : Sys := s.setRec m { s.mrec m with queued := (s.mrec m).queued + 1 }
 
-/-- the events a rollback of `lp` to `pastI` produces, and the new LP state -/
-def doRollback (s : Sys) (lp pastI : Nat) : Sys × List Exp :=
-  match rollback (hnd s lp) s.ev (s.lp lp) pastI with
-  | none => (s, [.rb lp pastI 999999999])
-  | some o =>
-    let antis := o.undone.map (fun e => match e with
-      | .past m => Exp.unproc m
-      | .sent m => Exp.antil m
-      | .rsent m => Exp.antir m)
-    let antis := antis.flatMap (fun e => match e with
-      | .antir m => [e, Exp.fgvt m]
-      | _ => [e])
-    (s.setLp lp o.lp,
-     antis ++ [.rb lp pastI o.ref] ++ o.silent.map (fun (i, m) => Exp.silent lp i m) ++ [.rbdone lp pastI (digest o.lp.st)])
+/-! ### shadow of the abstract Time Warp machine -/
+
+def Sys.twModel (s : Sys) : SimModel GState := simModel s.P (fun lp => s.rng0.getD lp ⟨0, 0, 0, 0⟩)
+
+def Sys.twFail (s : Sys) (why : String) : Sys :=
+  if s.tw.bad.isSome then s else { s with tw := { s.tw with bad := some why } }
+
+/-- created at the first dequeue: by then every LP has been initialised (barrier after `lp_init`) -/
+def Sys.twStart (s : Sys) : Sys :=
+  if s.tw.on && s.tw.st.isNone && s.nNodes == 1 then
+    { s with tw := { s.tw with st := some (TW.init s.twModel), dropped := Array.replicate s.P.nLps [] } }
+  else s
+
+/-- the abstraction function commutes: abstract history of `lp` = committed contents ++ contents of the current past entries -/
+def Sys.twPastOk (s : Sys) (lp : Nat) : Bool :=
+  match s.tw.st with
+  | some t => t.past lp == (s.tw.dropped.getD lp []) ++ (pastMsgs (s.lp lp).hist).map s.ev
+  | none => true
+
+def Sys.twAct (s : Sys) (a : TW.Action) (what : String) : Sys :=
+  if !s.tw.on || s.tw.bad.isSome then s else
+  match s.tw.st with
+  | none => s
+  | some t =>
+    match TW.step? s.twModel t a with
+    | none => s.twFail s!"{what}: abstract action not enabled"
+    | some t' => { s with tw := { s.tw with st := some t', steps := s.tw.steps + 1 } }
+
+def Sys.twCheckPast (s : Sys) (lp : Nat) (what : String) : Sys :=
+  if !s.tw.on || s.tw.bad.isSome then s else
+  if s.twPastOk lp then s else s.twFail s!"{what}: abstract and concrete history of LP {lp} differ"
+
+/-- the trace lines expected for an action of the proven step function `LPFull.step` (`dg` = digest of the LP state after the
+rollback of this step, printed by the `rbdone` line) -/
+def actExp (lp : Nat) (dg : UInt64) : LPFull.Action → List Exp
+  | .unproc m c => [.unproc m c]
+  | .antiLocal m => [.antil m]
+  | .antiRemote m => [.antir m]
+  | .freeAtGvt m => [.fgvt m]
+  | .rollback p ref => [.rb lp p ref]
+  | .silent i m => [.silent lp i m]
+  | .rollbackDone p => [.rbdone lp p dg]
+  | .termRollback t => [.termrb lp t]
+  | .markAnti _ => []            -- a flag write, no trace line: applied by `onExtract`
+  | .antiDiscard m f => [.antid m f]
+  | .earlyPark m => [.early m]
+  | .earlyMatch m a => [.ematch m a]
+  | .send _ e => [.send lp e]
+  | .rsend _ e => [.rsend lp e]
+  | .forward m _ => [.fwd m lp]
+  | .free m => [.free m]
 
 /-- render + apply an expected event when its line arrives; `arg` = ordinal carried by the line -/
 def applyExp (s : Sys) (r : Nat) (e : Exp) (arg : Nat) : Sys × String :=
   match e with
   | .send lp ev =>
     let s := s.setRec arg { ev := ev, flags := 0, queued := 1, known := true }
+    let th := s.th r
+    if th.collect then (s.setTh r { th with outs := th.outs.push arg }, renderSend arg lp ev) else
+    -- process_lp_init
     let l := s.lp lp
     (s.setLp lp { l with hist := l.hist ++ [.sent arg] }, renderSend arg lp ev)
   | .initPush _ _ => (s, "internal-initPush")
@@ -145,28 +204,29 @@ def applyExp (s : Sys) (r : Nat) (e : Exp) (arg : Nat) : Sys × String :=
     let s := s.setRec m { s.mrec m with flags := f + 1 }
     let s := if f / 2 % 2 = 1 then s.requeue m else s
     (s, s!"antil {m} f={f}")
-  | .unproc m =>
+  | .unproc m c =>
     let f := (s.mrec m).flags
     let s := s.setRec m { s.mrec m with flags := f - 2 }
     let s := if f % 2 = 0 then s.requeue m else s
-    (s, s!"unproc {m} f={f}")
+    (s, s!"unproc {m} f={f}{if c && f % 2 = 0 then " CANCELLED-BUT-REQUEUED" else ""}")
   | .rb lp p ref => (s, s!"rb lp={lp} past={p} ref={ref}")
   | .silent lp i m => (s, s!"silent lp={lp} idx={i} m={m}")
   | .rbdone lp p dg => (s, s!"rbdone lp={lp} past={p} st={hx dg}")
   | .fwd m lp =>
-    let l := s.lp lp
-    let l := { l with hist := l.hist ++ [.past m] }
-    let s := s.setLp lp l
+    -- forward execution by the proven `LPFull.stepFwd`, with the ordinals the allocator handed out (collected from the send lines)
     let th := s.th r
+    let st0 : LPFull.St GState := { lp := s.lp lp, earlyAntis := s.earlyAntis.getD lp [] }
+    let (st1, acts) := LPFull.stepFwd (hnd s lp) s.isRemote (fun k => th.outs.getD k 0) st0 m (s.ev m)
+    let idx := match acts.getLast? with
+      | some (.forward _ i) => i
+      | _ => 999999999
+    let s := s.setLp lp st1.lp
+    let th := { th with collect := false, outs := #[] }
+    let s := s.setTh r th
     let s := if s.termT.getD lp tNone = tNone then s.setTh r { th with exp := th.exp ++ [.termproc lp (s.ev m).t] } else s
-    -- glue check: the incrementally built LP must equal what the proven one-shot `LP.processPlain` computes
-    let glue := match th.oneShot with
-      | some lp' =>
-        if lp'.hist.length == l.hist.length && lp'.hist.map Entry.isPast == l.hist.map Entry.isPast
-           && pastMsgs lp'.hist == pastMsgs l.hist && digest lp'.st == digest l.st && lp'.bound == l.bound
-           && lp'.logs.map (fun (x : Nat × GState) => x.1) == l.logs.map (fun (x : Nat × GState) => x.1) then "" else " GLUE-MISMATCH"
-      | none => " GLUE-UNDEFINED"
-    (s, s!"fwd {m} lp={lp} idx={l.hist.length - 1} st={hx (digest l.st)}{glue}")
+    -- shadow: the abstract `exec` was applied when the message was extracted; now the concrete history has caught up
+    let s := s.twCheckPast lp s!"fwd {m}"
+    (s, s!"fwd {m} lp={lp} idx={idx} st={hx (digest st1.lp.st)}")
   | .antid m f => (s, s!"antid {m} f={f}")
   | .free m =>
     if (s.mrec m).freed then (s, s!"double-free {m}")
@@ -193,6 +253,8 @@ def applyExp (s : Sys) (r : Nat) (e : Exp) (arg : Nat) : Sys × String :=
     (s, s!"termproc lp={lp} t={newT} lte={lte}")
   | .rsend lp ev =>
     let s := s.setRec arg { ev := ev, flags := 0, queued := 0, known := true }
+    let th := s.th r
+    if th.collect then (s.setTh r { th with outs := th.outs.push arg }, renderSend arg lp ev |>.replace "send " "rsend ") else
     let l := s.lp lp
     (s.setLp lp { l with hist := l.hist ++ [.rsent arg] }, renderSend arg lp ev |>.replace "send " "rsend ")
   | .antir m => (s, s!"antir {m}")
@@ -223,81 +285,42 @@ def consume (s : Sys) (r : Nat) (kind : String) (arg : Nat) : Sys × String :=
       (s, out)
     else (s, s!"expected {expKind e} got {kind} {arg}")
 
-/-- process_msg after the `fetch_add(PROCESSED)` saw `f` -/
+/-- process_msg after the `fetch_add(PROCESSED)` saw `f`: every LP-level decision is taken by the PROVEN step function
+`LPFull.stepPre` / `LPFull.stepFwd` (= `LPFull.step`; theorems: Props/C06LP.lean, Props/C01Sorted.lean, Props/C05LP.lean). The driver
+only renders the actions as expected trace lines and keeps the flag words of the messages. -/
 def onExtract (s : Sys) (r m f : Nat) : Sys :=
   let lpI := (s.ev m).dest
-  let t := s.th r
-  if f % 2 = 1 && f > 3 then
-    -- remote anti-message (`handle_remote_anti_msg`): after `raw_flags -= MSG_FLAG_ANTI` its word is f + 1, which is
-    -- exactly the word of the matching event once that has been processed (id + PROCESSED); match on (word, m_seq)
-    let mId := f + 1
-    let seq := (s.mrec m).mseq
-    let l := s.lp lpI
-    let k := scanBack (fun e => e.isPast && (s.mrec e.msg).flags == mId && (s.mrec e.msg).mseq == seq) l.hist.reverse
-    if k = 0 then
-      -- early remote anti-message: parked on the LP's list (its word is now f + 1)
-      let s := s.setRec m { s.mrec m with flags := mId }
-      let s := { s with earlyAntis := s.earlyAntis.set! lpI (m :: s.earlyAntis.getD lpI []) }
-      let l := s.lp lpI
-      let s := s.setLp lpI { l with bound := if l.hist.isEmpty then none else l.bound }
-      s.setTh r { t with exp := [.early m] }
-    else
-      let i := k - 1
-      let x := (l.hist.getD i (.past 0)).msg
-      let pastI := scanBack Entry.isPast (l.hist.take i).reverse
-      -- msg->raw_flags |= MSG_FLAG_ANTI
-      let s := s.setRec x { s.mrec x with flags := (s.mrec x).flags + 1 }
-      let (s, evs) := doRollback s lpI pastI
-      let l := s.lp lpI
-      let s := s.setLp lpI { l with bound := if l.hist.isEmpty then none else l.bound }
-      s.setTh r { (s.th r) with exp := evs ++ [.termrb lpI (s.ev x).t, .free x, .free m] }
-  else if f % 2 = 1 then
-    -- anti-message
-    if f = 3 then
-      match matchAnti (s.lp lpI).hist m with
-      | none => s.setTh r { t with exp := [.rb lpI 888888888 0] }
-      | some pastI =>
-        let (s, evs) := doRollback s lpI pastI
-        let l := s.lp lpI
-        let s := s.setLp lpI { l with bound := if l.hist.isEmpty then none else l.bound }
-        s.setTh r { (s.th r) with exp := evs ++ [.termrb lpI (s.ev m).t, .antid m f, .free m] }
-    else
-      let l := s.lp lpI
-      let s := s.setLp lpI { l with bound := if l.hist.isEmpty then none else l.bound }
-      s.setTh r { t with exp := [.antid m f, .free m] }
-  else
-    -- a remote event may already have been cancelled by an early anti-message (`check_early_anti_messages`)
-    let early := s.earlyAntis.getD lpI []
-    let hit := if f != 0 then early.find? (fun a => (s.mrec a).flags == f + 2 && (s.mrec a).mseq == (s.mrec m).mseq) else none
-    match hit with
-    | some a =>
-      let s := { s with earlyAntis := s.earlyAntis.set! lpI (early.erase a) }
-      s.setTh r { t with exp := [.ematch m a, .free m, .free a] }
-    | none =>
-    let l := s.lp lpI
-    let me := s.look m
-    let me := { me with rawFlags := f + 2 }
-    let strag : Bool := isStraggler s.look l me
-    let (s, evs) :=
-      if strag then
-        let (s, evs) := doRollback s lpI (matchStraggler s.look l.hist me)
-        (s, evs ++ [.termrb lpI me.destT])
-      else (s, [])
-    -- the proven one-shot function on the state before this message (theorems: C01.history_stays_sorted, C05LP.run_exact)
-    let oneShot := match processPlain (hnd s lpI) s.ev s.look l m me
-        (List.replicate ((hnd s lpI (match (if strag then (rollback (hnd s lpI) s.ev l (matchStraggler s.look l.hist me)).map (·.lp.st) else some l.st) with
-          | some st => st | none => l.st) (s.ev m)).2.length) 0) with
-      | some (lp', _) => some lp'
-      | none => none
-    -- forward execution
-    let l := s.lp lpI
-    let (st', outs) := hnd s lpI l.st (s.ev m)
-    let s := s.setLp lpI { l with st := st', bound := some (s.ev m).t }
+  let st0 : LPFull.St GState := { lp := s.lp lpI, earlyAntis := s.earlyAntis.getD lpI [] }
+  match LPFull.stepPre (hnd s lpI) s.ev s.look st0 m f with
+  | none =>
+    -- the C code would run a backward scan off the beginning of an array: no real line can match this
+    s.setTh r { (s.th r) with exp := [.rb lpI 999999999 0] }
+  | some p =>
+    -- flag words written by the step itself: `msg->raw_flags |= MSG_FLAG_ANTI` on the matched event; a parked
+    -- anti-message keeps the word `f + 1` (`a_msg->raw_flags -= MSG_FLAG_ANTI`)
+    let s := p.acts.foldl (fun s a => match a with
+      | .markAnti x => s.setRec x { s.mrec x with flags := (s.mrec x).flags + 1 }
+      | .earlyPark a => s.setRec a { s.mrec a with flags := f + 1 }
+      | _ => s) s
+    -- shadow of the abstract machine (single rank): the whole `process_msg` is ONE abstract action, applied now
+    let pastBefore := pastMsgs st0.lp.hist
+    let s := if !s.tw.on then s else
+      if p.cont then s.twAct (.exec lpI (s.ev m)) s!"ext {m} (exec)"
+      else if f == 1 then s.twAct (.annihilate (s.ev m)) s!"ext {m} (annihilate)"
+      else if f == 3 then
+        match pastBefore.idxOf? m with
+        | some i => s.twAct (.antiRollback lpI ((s.tw.dropped.getD lpI []).length + i)) s!"ext {m} (antiRollback)"
+        | none => s.twFail s!"ext {m}: cancelled message is not a past entry"
+      else s.twFail s!"ext {m}: flag word {f} has no abstract action (remote paths are not shadowed)"
+    let s := s.setLp lpI p.st.lp
+    let s := { s with earlyAntis := s.earlyAntis.set! lpI p.st.earlyAntis }
+    let s := if p.cont then s else s.twCheckPast lpI s!"ext {m}"
+    -- the handler's outputs (contents, local/remote) are known now; their ordinals arrive with the send lines
+    let fwdActs := if p.cont then (LPFull.stepFwd (hnd s lpI) s.isRemote (fun _ => 0) p.st m (s.ev m)).2 else []
     -- termination_on_msg_process returns early when termination_t != 0; whether it does is decided when the
     -- rollback's own termination update (if any) has been applied, i.e. at `fwd` time
-    s.setTh r { (s.th r) with oneShot := oneShot,
-                              exp := evs ++ outs.map (fun e => if s.isRemote e.dest then Exp.rsend lpI e else Exp.send lpI e)
-                                  ++ [.fwd m lpI] }
+    s.setTh r { (s.th r) with collect := p.cont, outs := #[],
+                              exp := (p.acts ++ fwdActs).flatMap (actExp lpI (digest p.st.lp.st)) }
 
 def insertSorted (e : Event) : List Event → List Event
   | [] => [e]
@@ -368,6 +391,8 @@ def onDequeue (s : Sys) (r m : Nat) : Sys :=
     let c0 := s.committed.getD lpI 0
     let ok := s.prefixOk lpI c0 pm
     let s := { s with committed := s.committed.set! lpI (c0 + pm.length) }
+    let s := if s.tw.on then
+        { s with tw := { s.tw with dropped := s.tw.dropped.set! lpI ((s.tw.dropped.getD lpI []) ++ pm.map s.ev) } } else s
     (s.setLp lpI l').setTh r { t with exp := evs ++ [.fdone lpI n ok] }
 
 def parStep (s : Sys) (toks : List String) : Sys × String :=
@@ -385,6 +410,7 @@ def parStep (s : Sys) (toks : List String) : Sys × String :=
               termT := Array.replicate (nat! lps) tNone,
               committed := Array.replicate (nat! lps) 0 }, "model ok")
   | ["period", _] => (s, "period")
+  | ["twshadow"] => ({ s with tw := { s.tw with on := true } }, "twshadow ok")
   | ["alloc", r, o] =>
     let r := nat! r; let o := nat! o
     let s := s.setRec o { ev := dummyEv }
@@ -419,6 +445,7 @@ def parStep (s : Sys) (toks : List String) : Sys × String :=
     if !(s.th r).exp.isEmpty then (s, s!"deq-while-expecting") else
     if (s.mrec m).queued = 0 then (s, s!"deq-not-queued {m}") else
     let e := s.ev m
+    let s := s.twStart
     let s := onDequeue s r m
     let below := decide (e.t < (s.th r).gvt)
     (s.setTh r { (s.th r) with cur := m }, s!"deq {m} lp={e.dest} tq={e.t} type={e.type}{if below then " BELOW-GVT" else ""}")
@@ -486,6 +513,12 @@ def parStep (s : Sys) (toks : List String) : Sys × String :=
         let last := lst.getD (lst.size - 1) 0
         ((lst.set! i last).pop, fr ++ [Exp.free m])
       else (lst, fr)) (t.atGvt, [])
+    let s := match s.tw.on, s.tw.st with
+      | true, some tws =>
+        let s := { s with tw := { s.tw with gvtChecks := s.tw.gvtChecks + 1 } }
+        if tq ≥ tMax || TW.lowerBound tws tq then s
+        else s.twFail s!"gvt {tq} told to thread {r} is not a lower bound of the abstract pending messages / anti-messages"
+      | _, _ => s
     (s.setTh r { t with epoch := t.epoch + 1, gvt := tq, exp := exp ++ frees, atGvt := lst }, s!"gvt {r} tq={tq}")
   | ["vote", r, _, _] => consume s (nat! r) "vote" 0
   | ["stage", r, n] => (s, s!"stage {r} {n}")
@@ -523,7 +556,10 @@ def parStep (s : Sys) (toks : List String) : Sys × String :=
   | "hang" :: rest => (s, " ".intercalate ("hang" :: rest))
   | ["end"] =>
     let leaked := (List.range s.pool.size).filter (fun m => !(s.mrec m).freed)
-    (s, s!"end allocs={s.allocs} frees={s.frees} leaked={leaked.length}")
+    let twv := match s.tw.on, s.tw.bad with
+      | true, some why => s!" TW-SHADOW-FAILED after {s.tw.steps} abstract steps: {why}"
+      | _, _ => ""
+    (s, s!"end allocs={s.allocs} frees={s.frees} leaked={leaked.length}{twv}")
   | _ => (s, "bad-op")
 
 /-! ### serial mode: the serial runtime's control skeleton over a sorted event list -/
